@@ -1,6 +1,6 @@
 (* Output effect of translated code: the C string at a pointer is appended to a ghost output (lib/CMem.v memory). *)
-From Coq Require Import ZArith NArith Bool List.
-From CppUVerif Require Import lib.CSem lib.CMem.
+From Coq Require Import ZArith NArith Bool List String.
+From CppUVerif Require Import lib.CSem lib.CMem lib.Str.
 Import ListNotations.
 
 (* the bytes of the NUL-terminated string held by a list of cells; None when no terminator is found *)
@@ -18,3 +18,14 @@ Proof.
   destruct (N.eqb_spec c 0) as [->|_]; [exfalso; apply H; left; reflexivity|].
   rewrite IH by (intro X; apply H; right; exact X). reflexivity.
 Qed.
+
+(* ghost events of the translated check functions: the check was counted / a failure of that class was recorded at file:line and the
+   test was left *)
+Inductive aev := ACount | AFail (cls : string) (file : ptr) (line : Z).
+
+(* operations of SimpleString objects built from C strings, by their textbook meaning on the strings at the pointers (the allocating
+   operations themselves are not translated; C13's theorems relate the model of these operations to the same textbook functions) *)
+Definition cstr_at_ptr (m : memory) (p : ptr) : list N := cut_nul (view m p).
+Definition eq_nocase_at (m : memory) (p q : ptr) : Z := b2z (bytes_eqb (lower (cstr_at_ptr m p)) (lower (cstr_at_ptr m q))).
+Definition contains_at (m : memory) (p q : ptr) : Z := b2z (contains (cstr_at_ptr m p) (cstr_at_ptr m q)).
+Definition contains_nocase_at (m : memory) (p q : ptr) : Z := b2z (contains (lower (cstr_at_ptr m p)) (lower (cstr_at_ptr m q))).
